@@ -4,7 +4,7 @@
   proved for all sizes.  That is a faithful reading of the code only as long as the code has no such
   threshold either.  `Gen/Bounds.lean` is regenerated on every run (translator/extract_bounds.py) from
   the non-test code of the modelled files and lists every numeric `const`/`static`, every comparison
-  with a numeric literal other than 0 and 1, every `take/skip/nth/truncate/…(N)`, `% N`, `[_; N]`,
+  with a numeric literal other than 0, 1 and 2, every `take/skip/nth/truncate/…(N)`, `% N`, `[_; N]`,
   `EPSILON` and `MAX_*`-like name.  These theorems state that the lists are empty NOW; a cap added to
   the code (nesting limit, budget of visited selections, maximum number of errors, float tolerance)
   breaks the one for its file, whatever inputs the correspondence run contains.
